@@ -135,7 +135,8 @@ func runCase(id int, d Defaults, c *Case) {
 	// the parent turns that into `crash <id> in-process: fatal error: hang …` and goes on
 	var run *Run
 	done := make(chan *Run, 1)
-	go func() { done <- runPipeline(d, args) }()
+	binStdin = c.Stdin
+	go func() { done <- runPipelineStdin(d, args) }()
 	select {
 	case run = <-done:
 	case <-time.After(pipelineLimit):
@@ -149,6 +150,9 @@ func runCase(id int, d Defaults, c *Case) {
 		fileParts = append(fileParts, hx.HexS(f.Name)+":"+hx.HexS(f.Content))
 	}
 	head := fmt.Sprintf("case %d kind=run args=%s files=%s", id, hx.HexListS(args), strings.Join(fileParts, ","))
+	if c.Stdin != "" {
+		head += " stdin=" + hx.HexS(c.Stdin)
+	}
 
 	// the real binary, both formats
 	binState := "skip"
